@@ -463,8 +463,8 @@ def oracle_set(ctx, rep, bodies, tag, s_render, s_ident, opts=None, allow=(), ns
 # fixed witnesses of the constructs the refinement was extended to (tree grammar: real mako, reference renderer, Lean
 # pipeline and Lean specification all run them; the same trees are the non-vacuity examples of Props/C05.lean)
 FIXED_SETS = [
-    # defs of a <%call> below a control line and in a nested <%call>: all of them are written into the outer ccall
-    # (that the OUTER callee could reach d7 as well is F-C05-5's business, oracle.quirk.nested_call_def_export)
+    # defs of a <%call> below a control line (exported by that call) and in a nested <%call> (exported by the nested
+    # call only - F-C05-5, repaired by 4a9e6c6; oracle.quirk.nested_call_def_export is its regression stream)
     ("call-defs-under-control-line-and-in-nested-call",
      [[["def", 1, [], G.FL(), [["text", "["], ["expr", ["caller", 5, [["lit", "p"]]], []], ["text", "|"],
                                ["expr", ["caller", 0, []], []], ["text", "]"]]],
@@ -490,11 +490,25 @@ FIXED_SETS = [
        ["expr", ["call", 2, []], []]],
       [["text", "I"], ["block", 14, False, G.FL(), [["text", "k"]]],
        ["block", 15, True, G.FL(buffered=True), [["text", "z"]]], ["text", "J"]]]),
+    # a buffered block writes its content where it is placed (F-C06-4, repaired by 248d875: visitBlockTag writes
+    # `__M_writer(<call> or '')`; the bare call dropped the returned content): anonymous, named, with filter=, inside a
+    # def, inside a loop
+    ("buffered-blocks",
+     [[["def", 1, [1], G.FL(), [["text", "("], ["block", 21, True, G.FL(buffered=True), [["text", "d"], ["expr", ["var", 1], []]]],
+                                ["text", ")"]]],
+       ["text", "a"],
+       ["block", 22, True, G.FL(buffered=True), [["text", "X"]]],
+       ["block", 23, False, G.FL(buffered=True, filters=[1]), [["text", "Y"], ["expr", ["boom"], []]]],
+       ["for", 3, [["lit", "7"], ["lit", "8"]],
+        [["block", 24, True, G.FL(buffered=True, filters=[2, 0]), [["text", "l"], ["expr", ["probe"], []]]]]],
+       ["expr", ["call", 1, [["lit", "p"]]], []],
+       ["text", "b"]]]),
 ]
 
 
-# F-C05-5: the defs of a <%call> nested in the content of another <%call> are written into the OUTER ccall too
-# (DefVisitor's default traversal descends into the nested tag): the outer callee reaches them as caller.<name>
+# F-C05-5 (repaired by /repo 4a9e6c6; regression witnesses): the defs of a <%call> nested in the content of another
+# <%call> were written into the OUTER ccall too (DefVisitor's default traversal descended into the nested tag and into
+# the nodes the lexer hangs under a control line): the outer callee reached them as caller.<name>
 QUIRK_WITNESSES = {
     "nested-call-def-reached-by-outer-callee": [
         [[["def", 1, [], G.FL(), [["text", "["], ["expr", ["caller", 7, []], []], ["text", "|"],
